@@ -162,7 +162,7 @@ def fn_inotify_handleEvent : List SkOp := [
     ⟨"ifBegin", "%1==nil", [], ["mu"]⟩,
     ⟨"ret", "Event{}, true", [], ["mu"]⟩,
     ⟨"ifEnd", "", [], ["mu"]⟩,
-    ⟨"ifBegin", "%1>0", [], ["mu"]⟩,
+    ⟨"ifBegin", "uint32(%1.Len)>0", [], ["mu"]⟩,
     ⟨"ifEnd", "", [], ["mu"]⟩,
     ⟨"ifBegin", "debug", [], ["mu"]⟩,
     ⟨"ifEnd", "", [], ["mu"]⟩,
@@ -194,7 +194,7 @@ def fn_inotify_handleEvent : List SkOp := [
     ⟨"call", "newEvent", [], ["mu"]⟩,
     ⟨"ifBegin", "%1.recurse", [], ["mu"]⟩,
     ⟨"call", "Has", [], ["mu"]⟩,
-    ⟨"ifBegin", "%1&&%2.Has(Create)", [], ["mu"]⟩,
+    ⟨"ifBegin", "%1.Mask&unix.IN_ISDIR==unix.IN_ISDIR&&%2.Has(Create)", [], ["mu"]⟩,
     ⟨"call", "register", [], ["mu"]⟩,
     ⟨"call", "sendError", [], ["mu"]⟩,
     ⟨"ifBegin", "!%1.sendError(%2)", [], ["mu"]⟩,
